@@ -84,7 +84,19 @@ def run(prop, tier, seed, spec, t0):
             extra_viol.append(viol)
             if n >= 2:
                 break
-    return M.finish(prop, tier, seed, spec, results, outdir, BIN, t0, extra_cov=extra_cov, extra_violations=extra_viol)
+    extra_fp = None
+    binaries = BIN
+    if prop == "C19":
+        # dynamic half: the same histories against the module build and the component build
+        from . import model
+        dres, ddir, dviol, dcov = model.run_c19_dynamic(tier, seed)
+        results = results + dres
+        extra_viol += dviol
+        extra_cov.update(dcov)
+        extra_fp = [ddir]
+        binaries = {"buildsim": BIN}
+    return M.finish(prop, tier, seed, spec, results, outdir, binaries, t0, extra_cov=extra_cov, extra_violations=extra_viol,
+                    extra_fp_dirs=extra_fp)
 
 
 def replay(path, v):
